@@ -1252,6 +1252,12 @@ Proof.
     + intros x Hx. subst rp'. rewrite lookup_note in Hx. destruct (lookup_rep (t, x) (reps st)) eqn:EL.
       * apply g_reps0. congruence.
       * destruct (key_eqb (t, x) (t, r)) eqn:EK; [apply key_eqb_eq in EK; inversion EK; lia | congruence].
+    + intros x Hx Hsel. apply g_present0; [|exact Hsel]. subst rp'. rewrite lookup_note in Hx.
+      destruct (lookup_rep (t, x) (reps st)) eqn:EL; [congruence|].
+      destruct (key_eqb (t, x) (t, r)) eqn:EK; [|congruence]. apply key_eqb_eq in EK. inversion EK; subst x.
+      exfalso. apply (g_dense0 r); [lia | exact EL].
+    + intros x Hx. specialize (g_dense0 x Hx). destruct (lookup_rep (t, x) (reps st)) eqn:EL; [|congruence].
+      rewrite (Hmono _ _ EL). discriminate.
 Qed.
 Definition trial_of (e : event) : Z :=
   match e with Start t _ | Report t _ _ _ | Resume t _ | Complete t _ _ | Fail t => t end.
